@@ -6,16 +6,32 @@ packages (plus explicit argument recipes for those that need more than a distrib
 interleavings are executed on several representations of an argument; before and after every
 call the harness snapshots every argument, the global configuration, the operations cache and
 NumPy's error state, and deterministic calls are repeated.
+
+A second kind of case, the *session*, keeps several distributions alive at once: they are brought into being one
+after another, each in its own representation - any logarithm base (integers, non-integers, below one), reached
+through the constructor, a copy, an in-place change of a fresh object, or derived from an older member - and the
+callables of the registry are applied to some of them in between.  After every step *every* live distribution
+(arguments and bystanders alike) must read back exactly as before, and every deterministic call is repeated at the
+end of the session.  A session is a whole history: it is executed in a process of its own that has imported dit and
+done nothing else (forked from a pristine copy of the check's main process), so that its verdict does not depend on
+what the check happened to run before it and a stored session replays to the same verdict.
 """
 import copy
 import inspect
 import itertools
+import json
 import math
+import os
+import select
+import signal
+import socket
+import tempfile
 from fractions import Fraction
 
 import numpy as np
 
 import core
+import covtrace
 import gen
 from env import import_dit
 
@@ -65,10 +81,16 @@ def snapshot(d):
     }
 
 
-def global_snapshot(dit):
+def global_snapshot(dit, session=False):
     import dit.math.ops as ops
+    if session:
+        # a session brings new logarithm bases into being, so the set of memoised bases legitimately grows (or, for a
+        # bounded memo, turns over); what must not change is what each memoised base stands for
+        cache = repr(sorted(repr(k) for k, o in list(ops.cache.items()) if o.get_base() != k))
+    else:
+        cache = repr(sorted(map(repr, ops.cache.keys())))
     return {'params': repr(sorted((k, repr(v)) for k, v in dit.ditParams.items())),
-            'ops_cache': repr(sorted(map(repr, ops.cache.keys()))), 'np_err': repr(np.geterr()),
+            'ops_cache': cache, 'np_err': repr(np.geterr()),
             'prng': repr(dit.math.prng.get_state()[1][:8].tolist()) + str(dit.math.prng.get_state()[2])}
 
 
@@ -191,6 +213,96 @@ def build_registry(dit, tier):
     return reg
 
 
+# ---------------------------------------------------------------------------------- a pristine process per session
+#
+# `start_pristine` forks a copy of the calling process at a moment when it has imported dit and executed no case (the
+# generator calls it in the check's main process; a replay calls it before its only case).  The copy listens on a
+# Unix socket; for every session it is sent it forks once more, the child executes the session and answers with the
+# result and the lines of dit it reached.  Worker processes forked from the main process later find the same socket.
+# The copy ends when the last process that could talk to it is gone (end-of-file on a pipe they all hold open).
+
+_PRISTINE = {'path': None, 'keep': None}
+
+
+def start_pristine():
+    if _PRISTINE['path'] is not None or not hasattr(os, 'fork'):
+        return
+    import_dit()
+    path = os.path.join(tempfile.mkdtemp(prefix='verif-c10-'), 's')
+    srv = socket.socket(socket.AF_UNIX, socket.SOCK_STREAM)
+    srv.bind(path)
+    srv.listen(64)
+    rfd, wfd = os.pipe()
+    if os.fork() == 0:
+        try:
+            os.close(wfd)
+            _serve(srv, rfd, path)
+        finally:
+            os._exit(0)
+    srv.close()
+    os.close(rfd)
+    _PRISTINE['path'], _PRISTINE['keep'] = path, wfd
+
+
+def _serve(srv, rfd, path):
+    signal.signal(signal.SIGCHLD, signal.SIG_IGN)
+    seen = set(covtrace.snapshot())
+    try:
+        while True:
+            ready, _, _ = select.select([srv, rfd], [], [])
+            if rfd in ready:
+                return
+            conn, _ = srv.accept()
+            if os.fork() == 0:
+                try:
+                    signal.signal(signal.SIGCHLD, signal.SIG_DFL)
+                    srv.close()
+                    os.close(rfd)
+                    _answer(conn, seen)
+                finally:
+                    os._exit(0)
+            conn.close()
+    finally:
+        try:
+            os.unlink(path)
+            os.rmdir(os.path.dirname(path))
+        except OSError:
+            pass
+
+
+def _answer(conn, seen):
+    f = conn.makefile('rw')
+    case = json.loads(f.readline())
+    r = PROP.run_session_here(case)
+    hits = [h for h in covtrace.snapshot() if tuple(h) not in seen]
+    f.write(json.dumps({'result': r.__dict__, 'hits': hits}, default=str) + '\n')
+    f.flush()
+    conn.close()
+
+
+def in_pristine_process(case):
+    """Result of the session executed in a fresh copy of the pristine process (None if that is not available)."""
+    start_pristine()
+    if _PRISTINE['path'] is None:
+        return None
+    conn = socket.socket(socket.AF_UNIX, socket.SOCK_STREAM)
+    try:
+        conn.connect(_PRISTINE['path'])     # no time limit: a session takes as long here as it would in this process
+        f = conn.makefile('rw')
+        f.write(json.dumps(case, default=str) + '\n')
+        f.flush()
+        line = f.readline()
+    finally:
+        conn.close()
+    if not line:
+        return None
+    out = json.loads(line)
+    covtrace.merge([tuple(h) for h in out['hits']])
+    r = core.Result()
+    r.__dict__.update(out['result'])
+    return r
+
+
 class C10(object):
     id = 'C10'
     rule = ("registry of public callables built by introspection of dit.shannon / multivariate / other / divergences / "
@@ -200,7 +312,15 @@ class C10(object):
             "interleavings of 12 calls; snapshot of every argument (outcomes, pmf bytes, base, sparse flag, alphabet, "
             "sample space, names, mask, rv mode, PRNG state, index), of ditParams, the ops cache keys, NumPy's error "
             "state and the global PRNG before/after each call; every deterministic call repeated at the end of the "
-            "interleaving. Non-trivial = the interleaving has >= 8 distinct callables")
+            "interleaving. Non-trivial = the interleaving has >= 8 distinct callables. "
+            "Sessions (one for every three interleavings): 2-12 distributions over one outcome table, each with its own "
+            "probabilities and its own representation - base linear / 2 / e / an integer 3..40 / a non-integer in "
+            "(1.2, 12) / a base below one; reached through the constructor on log values, copy(base), a plain copy of such "
+            "a copy, set_base on a fresh object, or copy([base]) of an older member; dense / named / untrimmed / custom "
+            "sample space at random - come into being one after another while callables of the registry are applied to "
+            "pairs of the live ones; after every step the snapshot of every live distribution (arguments and bystanders) "
+            "and the globals are compared with those before it, and every deterministic call is repeated on the same "
+            "members at the end. Non-trivial = at least 3 distributions and 6 distinct callables")
     tolerances = {'repeatability': 'results rounded to 1e-10 (optimiser-based callables: the same starting point gives the same iterates)'}
     exhaustive = {}
     modelled = "the theorem is the model's frame condition; the force for dit comes from this differential run"
@@ -209,6 +329,7 @@ class C10(object):
         # quick: 12 cycles of the 7 representations; cycle b calls registry entries 12b .. 12b+11, so that every
         # callable of the quick registry meets every representation at least once per run
         n_cases = 84 if tier == 'quick' else 240
+        start_pristine()     # nothing has been executed yet in this process: sessions start from a copy of this state
         for i in range(n_cases):
             c = gen.rand_dist_case(rng, nmin=3, nmax=3, amax=2, bases=['linear'], allow_space=False, allow_names=False,
                                    max_support=7, klasses=('str', 'tuple'))
@@ -231,8 +352,67 @@ class C10(object):
             c['ncalls'] = 12 if tier == 'quick' else 20
             c['slot'] = i // len(REPRESENTATIONS)
             yield c
+            if i % 3 == 2:
+                yield self.gen_session(rng, tier, c)
+
+    def gen_session(self, rng, tier, c):
+        """Several live distributions over the outcome table of `c`, in many representations, and an interleaving of
+        their creation with calls on the ones that exist already."""
+        nd = rng.choice([2, 3, 4, 5, 6, 8, 8, 9, 10, 10, 12, 12])
+        k = len(c['outs'])
+        dists = []
+        for m in range(nd):
+            pv, _ = gen.rand_prob_vector(rng, k, 'small')
+            if m == 0 or not all(p > 0 for p in pv):
+                rot = m % k
+                pmf = c['pmf'][rot:] + c['pmf'][:rot]
+            else:
+                pmf = [str(p) for p in pv]
+            u = rng.random()
+            if u < 0.08:
+                base = 'linear'
+            elif u < 0.16:
+                base = rng.choice([2, 'e'])
+            elif u < 0.40:
+                base = rng.randint(3, 40)
+            elif u < 0.94:
+                base = round(rng.uniform(1.2, 12.0), 3)
+            else:
+                base = round(rng.uniform(0.15, 0.85), 3)
+            if base == 'linear':
+                route = 'ctor'
+            elif m > 0 and rng.random() < 0.2:
+                route = 'derive'
+            else:
+                route = rng.choice(['ctor', 'ctor', 'copy-of-copy', 'copy-base', 'set_base'])
+            spec = {'pmf': pmf, 'base': base, 'route': route, 'dense': rng.random() < 0.3, 'named': rng.random() < 0.3,
+                    'shape': rng.choice(['plain', 'plain', 'plain', 'untrimmed', 'custom-space'])}
+            if route == 'derive':
+                spec['from'] = rng.randrange(m)
+                spec['rebase'] = rng.random() < 0.6    # copy(base=b) of the older member, else a plain copy()
+                if not spec['rebase']:
+                    spec['base'] = None                # a plain copy keeps the base of its source
+            dists.append(spec)
+        ncalls = 12 if tier == 'quick' else 20
+        # creation steps in order, call steps spread between them (the first distribution always comes first)
+        marks = sorted(rng.randrange(1, nd + 1) for _ in range(ncalls))
+        steps = []
+        for m in range(nd):
+            steps.append({'op': 'new', 'k': m})
+            for _ in range(sum(1 for x in marks if x == m + 1)):
+                i = rng.randrange(m + 1)
+                j = rng.randrange(m + 1)
+                if j == i and m > 0:
+                    j = (i + 1) % (m + 1)
+                steps.append({'op': 'call', 'fn': rng.randrange(10 ** 6), 'i': i, 'j': j})
+        return {'kind': 'session', 'klass': c['klass'], 'outs': c['outs'], 'dists': dists, 'steps': steps,
+                'tier': tier, 'rep': 'session'}
 
     def shrink(self, case):
+        if case.get('kind') == 'session':
+            for c in self.shrink_session(case):
+                yield c
+            return
         if case.get('only'):
             return
         for name in case.get('_called', []):
@@ -267,6 +447,8 @@ class C10(object):
         return d
 
     def run(self, case, drv):
+        if case.get('kind') == 'session':
+            return self.run_session(case)
         dit = import_dit()
         r = core.Result()
         r.site = 'C10.purity'
@@ -324,6 +506,201 @@ class C10(object):
                     return r
                 first.setdefault(nm, val)
         r.detail = {'calls': seq}
+        return r
+
+    # ------------------------------------------------------------------------------------------------ sessions
+
+    def shrink_session(self, case):
+        """Drop one step (a creation goes together with everything that refers to the distribution)."""
+        steps = case['steps']
+        for n in range(len(steps) - 1, -1, -1):
+            st = steps[n]
+            if st['op'] == 'call':
+                keep = steps[:n] + steps[n + 1:]
+            else:
+                gone = {st['k']}
+                grew = True
+                while grew:   # members derived from a dropped one go too
+                    grew = False
+                    for m, sp in enumerate(case['dists']):
+                        if sp['route'] == 'derive' and sp['from'] in gone and m not in gone:
+                            gone.add(m)
+                            grew = True
+                keep = [x for x in steps if not ((x['op'] == 'new' and x['k'] in gone)
+                                                 or (x['op'] == 'call' and (x['i'] in gone or x['j'] in gone)))]
+            if not any(x['op'] == 'new' for x in keep):
+                continue
+            c = dict(case)
+            c['steps'] = keep
+            yield c
+
+    def build_member(self, case, spec, pool):
+        """The distribution described by `spec`, in its representation, by its route."""
+        dit = import_dit()
+        klass, base, route = case['klass'], spec['base'], spec['route']
+        if route == 'derive':
+            src = pool[spec['from']]
+            return src.copy(base=base) if spec['rebase'] else src.copy()
+        outs = [gen.to_py(o, klass) for o in case['outs']]
+        probs = list(spec['pmf'])
+        kw = {}
+        alph = [sorted(set(o[i] for o in case['outs'])) for i in range(3)]
+        if spec['shape'] == 'untrimmed':
+            extra = [gen.to_py(list(o), klass) for o in itertools.product(*alph) if list(o) not in case['outs']][:2]
+            outs, probs = outs + extra, probs + ['0'] * len(extra)
+            kw['trim'] = False
+        if spec['shape'] == 'custom-space':
+            kw['sample_space'] = [gen.to_py(list(o), klass) for o in itertools.product(*alph)][::-1]
+        if route == 'ctor':
+            # the constructor is handed the stored representation itself (log values in the given base)
+            d = dit.Distribution(outs, [gen.log_of(p, base) for p in probs], base=base, **kw)
+        else:
+            d = dit.Distribution(outs, [float(Fraction(p)) for p in probs], **kw)
+            if route == 'set_base':
+                d.set_base(base)
+            elif route == 'copy-base':
+                d = d.copy(base=base)
+            elif route == 'copy-of-copy':
+                d = d.copy(base=base).copy()
+        if spec['dense']:
+            d.make_dense()
+        if spec['named']:
+            d.set_rv_names('XYZ')
+        return d
+
+    def run_session(self, case):
+        try:
+            r = in_pristine_process(case)
+        except (OSError, ValueError):
+            r = None
+        if r is None:
+            # no process of its own to be had: the session is executed here, after whatever this process did before
+            r = self.run_session_here(case)
+            r.features.append('session-in-shared-process')
+        return r
+
+    def run_session_here(self, case):
+        dit = import_dit()
+        r = core.Result()
+        r.site = 'C10.session'
+        r.features = ['rep=session']
+        tier = case.get('tier', 'quick')
+        reg = build_registry(dit, tier)
+        names = sorted(reg)
+        pool = {}        # index in case['dists'] -> live distribution
+        snaps = {}       # index -> snapshot taken when it came into being (and confirmed after every step since)
+        first = {}       # (callable, i, j) -> first value
+        called = []
+        log = []
+
+        def base_of(m):
+            sp = case['dists'][m]
+            return base_of(sp['from']) if sp['route'] == 'derive' and not sp['rebase'] else sp['base']
+
+        def describe(m):
+            sp = case['dists'][m]
+            if sp['route'] == 'derive':
+                how = ('copy(base=%r) of #%d' if sp['rebase'] else 'copy() of #%d, base %r') % (
+                    (sp['base'], sp['from']) if sp['rebase'] else (sp['from'], base_of(m)))
+                return '#%d (%s)' % (m, how)
+            return '#%d (base %r, %s)' % (m, sp['base'], sp['route'])
+
+        def call(nm, i, j):
+            try:
+                with np.errstate(all='ignore'):
+                    return ('ok', canon_value(reg[nm](pool[i], pool[j])))
+            except Exception as ex:  # noqa
+                return ('raised', type(ex).__name__)
+
+        def frame(what, args, sg):
+            """Every live distribution reads back as before the step; so do the globals."""
+            for m in sorted(snaps):
+                after = snapshot(pool[m])
+                diff = [key for key in snaps[m] if snaps[m][key] != after[key]]
+                if diff:
+                    role = 'its argument' if m in args else 'the bystander'
+                    r.oracle_fail = ('%s changed %s of %s %s, which reads back differently than before the step'
+                                     % (what, diff, role, describe(m)))
+                    r.detail = {'step': what, 'changed': diff, 'distribution': describe(m), 'was_argument': m in args,
+                                'before': {x: repr(snaps[m][x])[:200] for x in diff},
+                                'after': {x: repr(after[x])[:200] for x in diff}, 'steps_so_far': log}
+                    return False
+            ag = global_snapshot(dit, session=True)
+            gdiff = [key for key in sg if sg[key] != ag[key]]
+            if gdiff:
+                r.oracle_fail = '%s changed the global %s' % (what, gdiff)
+                r.detail = {'step': what, 'before': {x: sg[x][:300] for x in gdiff}, 'after': {x: ag[x][:300] for x in gdiff},
+                            'steps_so_far': log}
+                return False
+            return True
+
+        def compare(nm, i, j, val):
+            if any(x in nm for x in RANDOMISED) or any(x in nm for x in STOCHASTIC):
+                return True
+            tol = 1e-4 if any(x in nm for x in OPTIMISER) else 0.0
+            key = (nm, i, j)
+            if key in first and not close_value(first[key], val, tol):
+                r.oracle_fail = ('repeating %s on %s and %s after other calls gave a different result'
+                                 % (nm, describe(i), describe(j)))
+                r.site = 'C10.' + nm
+                r.detail = {'callable': nm, 'first': repr(first[key])[:400], 'again': repr(val)[:400], 'steps_so_far': log}
+                return False
+            first.setdefault(key, val)
+            return True
+
+        for st in case['steps']:
+            sg = global_snapshot(dit, session=True)
+            if st['op'] == 'new':
+                m = st['k']
+                sp = case['dists'][m]
+                if sp['route'] == 'derive' and sp['from'] not in pool:
+                    continue
+                what = 'bringing %s into being' % describe(m)
+                log.append(what)
+                d = self.build_member(case, sp, pool)
+                # constructors are not queries: the globals are only watched when the new member is derived from an
+                # older one by the non-mutating method copy
+                if not frame(what, {sp['from']} if sp['route'] == 'derive' else set(), sg if sp['route'] == 'derive' else {}):
+                    return r
+                pool[m] = d
+                snaps[m] = snapshot(d)
+                b = base_of(m)
+                r.features.append('base=%s' % (b if b in ('linear', 2, 'e') else 'integer' if isinstance(b, int)
+                                               else 'below-one' if b < 1 else 'non-integer'))
+                r.features.append('route=' + sp['route'])
+            else:
+                i, j = st['i'], st['j']
+                if i not in pool or j not in pool:
+                    continue
+                nm = names[st['fn'] % len(names)]
+                what = '%s(%s, %s)' % (nm, describe(i), describe(j))
+                log.append(what)
+                called.append((nm, i, j))
+                val = call(nm, i, j)
+                if not frame(what, {i, j}, sg):
+                    r.site = 'C10.' + nm
+                    return r
+                if not compare(nm, i, j, val):
+                    return r
+        # every deterministic call once more, on the same members, after everything else
+        for nm, i, j in sorted(set(called)):
+            sg = global_snapshot(dit, session=True)
+            what = '%s(%s, %s) [repeated at the end]' % (nm, describe(i), describe(j))
+            log.append(what)
+            val = call(nm, i, j)
+            if not frame(what, {i, j}, sg):
+                r.site = 'C10.' + nm
+                return r
+            if not compare(nm, i, j, val):
+                return r
+        fns = set(nm for nm, _, _ in called)
+        for nm in fns:
+            r.features.append('fn=' + nm.split('.')[0])
+        custom = set(base_of(m) for m in pool) - {'linear', 2, 'e'}
+        r.features.append('session-dists=%d' % len(pool))
+        r.features.append('session-custom-bases=%s' % (len(custom) if len(custom) < 6 else '6+'))
+        r.nontrivial = len(pool) >= 3 and len(fns) >= 6
+        r.detail = {'steps': log}
         return r
 
 
